@@ -252,6 +252,14 @@ func addLifeStuff(r rng, p *sdl.Program) {
 		}
 		p.Procs = append(p.Procs, pr)
 	}
+	// a processor replaces the COMPONENT of another (non-lazy) processor by an object that is
+	// no processor: the other keeps taking part as it was registered
+	if len(p.Procs) >= 2 && r.p(0.15) {
+		a, b := pick(r, p.Procs), pick(r, p.Procs)
+		if a.ID != b.ID && !b.Lazy {
+			a.Rules = append(a.Rules, &sdl.Rule{Target: b.ID, At: sdl.CbAfter, Action: "substitute", Sub: "px"})
+		}
+	}
 	// runners: dedicated types
 	nr := r.n(0, 5)
 	if r.p(0.15) {
